@@ -6,6 +6,7 @@ import (
 	"go/constant"
 	"go/token"
 	"go/types"
+	"os"
 	"sort"
 	"strings"
 
@@ -164,6 +165,18 @@ func (vc *FuncVC) call(b *ssa.BasicBlock, idx int, ins ssa.Instruction, c *ssa.C
 			vars[fmt.Sprintf("arg%d", i-off)] = SVal{a, argTypes[i]}
 		} else {
 			vars["recv"] = SVal{a, argTypes[i]}
+		}
+	}
+	// a callee whose parameters were renamed since its contract was written: the recorded table gives the old names
+	if sc := c.StaticCallee(); sc != nil && len(sc.Params) == len(args) && os.Getenv("GOVC_NOREBIND") == "" {
+		if old := loadNameTable(calleeKey(sc)); len(old) >= len(sc.Params) {
+			for i, p := range sc.Params {
+				if on := old[i].Name; on != p.Name() && on != "" && old[i].Type == typeString(p.Type()) && !specBuiltins[on] {
+					if _, taken := vars[on]; !taken {
+						vars[on] = SVal{args[i], argTypes[i]}
+					}
+				}
+			}
 		}
 	}
 	// the callee's own parameter names are always available too (contracts verified from source use them)
